@@ -53,6 +53,10 @@ def run(chk):
     finally:
         BM.CONFIG['symbolic_ops'] = False
         it.arith_feasibility = False
+    # backing also needs that what a withdrawal burns are tokens that exist: the withdrawal selector only passes requests
+    # whose (single) output is an unspent coin of the pool's liquidity-token denomination
+    from props import c15
+    c15.selectors(chk, it, only=('withdrawal',))
 
 
 def _ranges(p, lo=1):
